@@ -1,6 +1,7 @@
 package status
 
 import (
+	"bytes"
 	"encoding/json"
 	"os"
 	"path"
@@ -50,7 +51,14 @@ func Read(cfg *program.Config, device string) status {
 	fname := path.Join(cfg.BaseDir, "status", device)
 	data, _ := os.ReadFile(fname)
 	var v status
-	json.Unmarshal(data, &v)
+	// Ignore damaged file completely.
+	// Otherwise some valid part, e.g. an old result of approve,
+	// would hide the damaged result of a later compare.
+	dec := json.NewDecoder(bytes.NewReader(data))
+	dec.DisallowUnknownFields()
+	if err := dec.Decode(&v); err != nil {
+		return status{}
+	}
 	return v
 }
 
